@@ -9,6 +9,20 @@ BASELINE = ("cd /repo && env -u PYCRAFT_VERIF /venv/bin/python -m pytest -ra -q 
             "--timeout=900 --continue-on-collection-errors")
 
 CHECKS = {
+    'C07': dict(
+        technique='TLA+ reference table of ids and layouts per release (ProtocolRef.tla), written from the published protocol and '
+                  'encoded by the TLA+ reference encoders; TLC emits (release, packet, values, payload) rows replayed into the real '
+                  'packet classes and reactor dispatch tables (S->I)',
+        text='ProtocolRef.tla states, for each of the 30 release protocols the README lists (47 ... 757), the ids of handshake, status '
+             'request / response / ping / pong, login start / success / disconnect / set-compression / encryption request / response, '
+             'keep-alive both ways, join game, chat both ways, player position and look both ways, teleport confirm and play '
+             'disconnect, and their field layouts per era (keep-alive width, teleport id, dismount flag, chat sender, login-success UUID, '
+             'the seven join-game eras); TLC encodes two value sets per row with the Wire encoders and checks the table is injective. '
+             'For every row the real class must report that id, the reactor must dispatch that id to that class, Packet.write must '
+             'produce exactly the reference bytes, and reading the reference bytes must give the values with nothing left over.',
+        note='The table is recollected (no network): any disagreement on the unchanged tree is adjudicated from in-repo evidence or '
+             'the row dropped - none was needed. NBT fields use one fixed blob. Trusted: TLC, pynbt for the blob.',
+        design='5/C07'),
     'C05': dict(
         technique='TLA+ packet codec over the reference encoders (PacketCodec.tla): TLC-generated field-list programs replayed into '
                   'user-defined Packet subclasses (S->I); every library class x supported version x variant written and read back, the '
